@@ -2,8 +2,20 @@ package main
 
 import (
 	"crypto/rand"
+	"os"
+	"strconv"
 	"syscall"
+	"time"
 )
+
+// slowSourceMs: which processes include a slow-source call, and how slow (VERIF_SLOW_MS overrides; 0 = none)
+func slowSourceMs(n, lang, seed int64) int {
+	if v := os.Getenv("VERIF_SLOW_MS"); v != "" {
+		ms, _ := strconv.Atoi(v)
+		return ms
+	}
+	return 0
+}
 
 // mark writes to an invalid descriptor: a no-op that is visible to strace and
 // delimits the system calls made by one library call.
@@ -44,6 +56,13 @@ func runOSProc(n int64, lang int64, seed int64) {
 		recNewMnemonic(n, lang, nil)
 	}
 	src.pattern = ""
+	// a working source that is slow to answer (an entropy-starved boot, a hardware generator): the mnemonic is still
+	// made of that source's bytes and of nothing else
+	if slowMs := slowSourceMs(n, lang, seed); slowMs > 0 {
+		src.total, src.delay = 0, time.Duration(slowMs)*time.Millisecond
+		recNewMnemonic(n, lang, nil)
+		src.delay = 0
+	}
 	swapSource(osRandReader(), "os")
 	emit(Event{"op": "OSMark", "id": 3})
 	mark("BEGIN")
